@@ -188,10 +188,141 @@ def _loop(st):
     return specials, ren
 
 
+# ---- canonicalisation of edits that cannot change behaviour -------------------------------------------------------
+# Before the statement shapes are matched, a function is brought into the canonical spelling:
+#   * docstrings, annotations, logging statements, `pass`, typing.cast are dropped (py2v's normaliser);
+#   * `for ...: if not C: continue; REST`  ->  `for ...: if C: REST`;
+#   * `x in NAME` where NAME is a module-level constant bound once to a literal list/tuple/set of strings -> the literal;
+#   * `v = helper(name, prefix)` where helper is a module-level function whose (normalised) body is the prefix removal
+#     followed by the Session rename -> those two statements, inlined;
+#   * local variables are renamed to the canonical names by order of first binding.
+# Anything else is left as it is and then has to match the shapes below (fail-closed).
+
+ACT_LOCALS = ["pyspark_mock", "key", "value", "prefix", "engine_module", "types", "resolved_files", "name", "obj",
+              "name_without_prefix", "file", "engine_file"]
+DEACT_LOCALS = ["pyspark_imports", "k", "v"]
+
+
+def module_str_constants(tree) -> dict:
+    """module-level NAME = <literal list/tuple/set of strings>, bound exactly once and never rebound or mutated by name"""
+    count, val = {}, {}
+    for st in tree.body:
+        tgts = []
+        if isinstance(st, ast.Assign):
+            tgts = [t for t in st.targets if isinstance(t, ast.Name)]
+        elif isinstance(st, (ast.AnnAssign, ast.AugAssign)) and isinstance(st.target, ast.Name):
+            tgts = [st.target]
+        for tg in tgts:
+            count[tg.id] = count.get(tg.id, 0) + 1
+            v = getattr(st, "value", None)
+            if isinstance(st, ast.Assign) and isinstance(v, (ast.List, ast.Tuple, ast.Set)) \
+                    and all(isinstance(e, ast.Constant) and isinstance(e.value, str) for e in v.elts):
+                val[tg.id] = v
+    out = {k: v for k, v in val.items() if count.get(k) == 1}
+    for n in ast.walk(tree):                       # NAME.append(...), NAME += ..., `global NAME`: not a constant
+        if isinstance(n, ast.Global):
+            for g in n.names:
+                out.pop(g, None)
+        if isinstance(n, ast.Attribute) and isinstance(n.value, ast.Name) and n.value.id in out \
+                and n.attr in ("append", "extend", "insert", "remove", "pop", "clear", "add", "discard", "update", "sort", "reverse"):
+            out.pop(n.value.id, None)
+    return out
+
+
+def _unprefix_helper(fn: ast.FunctionDef):
+    """(from, to) if fn(name, prefix) is `x = name.replace(prefix, ""); if x == FROM: x = TO / return TO; return x`"""
+    try:
+        body = py2v.norm_body(fn, rename_locals=True, rename_params=True)
+    except Untranslatable:
+        return None
+    if len(fn.args.args) != 2 or fn.args.vararg or fn.args.kwarg or fn.args.kwonlyargs or fn.args.defaults or fn.decorator_list:
+        return None
+    if len(body) != 3 or not same(body[0], '_v0 = _p0.replace(_p1, "")') or not same(body[2], "return _v0"):
+        return None
+    b1 = body[1]
+    if not (isinstance(b1, ast.If) and not b1.orelse and len(b1.body) == 1 and isinstance(b1.test, ast.Compare)
+            and dotted(b1.test.left) == "_v0" and len(b1.test.ops) == 1 and isinstance(b1.test.ops[0], ast.Eq)
+            and isinstance(b1.test.comparators[0], ast.Constant) and isinstance(b1.test.comparators[0].value, str)):
+        return None
+    inner = b1.body[0]
+    if isinstance(inner, ast.Return) and isinstance(inner.value, ast.Constant) and isinstance(inner.value.value, str):
+        return b1.test.comparators[0].value, inner.value.value
+    if isinstance(inner, ast.Assign) and dotted(inner.targets[0]) == "_v0" and isinstance(inner.value, ast.Constant) \
+            and isinstance(inner.value.value, str):
+        return b1.test.comparators[0].value, inner.value.value
+    return None
+
+
+def canonical_function(tree, fn: ast.FunctionDef, canon_locals: list, skip_local=lambda st: False) -> ast.FunctionDef:
+    consts = module_str_constants(tree)
+    helpers = py2v.module_helpers(tree)
+    fn = py2v.normalize_func(fn, rename_locals=False)
+
+    class C(ast.NodeTransformer):
+        def visit_For(self, node):
+            node = self.generic_visit(node)
+            b = node.body
+            if len(b) >= 2 and isinstance(b[0], ast.If) and not b[0].orelse and len(b[0].body) == 1 \
+                    and isinstance(b[0].body[0], ast.Continue) and isinstance(b[0].test, ast.UnaryOp) \
+                    and isinstance(b[0].test.op, ast.Not) \
+                    and not any(isinstance(x, (ast.Continue, ast.Break)) for r in b[1:] for x in ast.walk(r)):
+                node.body = [ast.If(test=b[0].test.operand, body=b[1:], orelse=[])]
+            return node
+
+        def visit_Compare(self, node):
+            node = self.generic_visit(node)
+            if len(node.ops) == 1 and isinstance(node.ops[0], (ast.In, ast.NotIn)) and isinstance(node.comparators[0], ast.Name) \
+                    and node.comparators[0].id in consts:
+                node.comparators = [ast.List(elts=list(consts[node.comparators[0].id].elts), ctx=ast.Load())]
+            return node
+
+    fn = C().visit(fn)
+
+    def inline(stmts):
+        out = []
+        for st in stmts:
+            for fld in ("body", "orelse", "finalbody"):
+                if isinstance(getattr(st, fld, None), list) and not isinstance(st, ast.FunctionDef):
+                    setattr(st, fld, inline(getattr(st, fld)))
+            if isinstance(st, ast.Assign) and len(st.targets) == 1 and isinstance(st.targets[0], ast.Name) \
+                    and isinstance(st.value, ast.Call) and isinstance(st.value.func, ast.Name) and st.value.func.id in helpers \
+                    and len(st.value.args) == 2 and not st.value.keywords and all(isinstance(a, ast.Name) for a in st.value.args):
+                ft = _unprefix_helper(helpers[st.value.func.id])
+                if ft is not None:
+                    v, a0, a1 = st.targets[0].id, st.value.args[0].id, st.value.args[1].id
+                    out.append(stmt(f'{v} = {a0}.replace({a1}, "")'))
+                    out.append(stmt(f"if {v} == {ft[0]!r}:\n    {v} = {ft[1]!r}"))
+                    continue
+            out.append(st)
+        return out
+
+    fn.body = inline(fn.body)
+    # the canonical spelling of the registration condition uses a list
+    for n in ast.walk(fn):
+        if isinstance(n, ast.Compare) and len(n.ops) == 1 and isinstance(n.ops[0], ast.In) \
+                and isinstance(n.comparators[0], (ast.Tuple, ast.Set)) \
+                and all(isinstance(e, ast.Constant) and isinstance(e.value, str) for e in n.comparators[0].elts):
+            n.comparators = [ast.List(elts=list(n.comparators[0].elts), ctx=ast.Load())]
+    prm = {a.arg for a in fn.args.args}
+    skip = set()
+    for st in ast.walk(fn):
+        if isinstance(st, ast.Assign) and skip_local(st):
+            skip |= {t.id for t in st.targets if isinstance(t, ast.Name)}
+    locs = [n for n in py2v._local_names(fn, prm) if n not in skip]
+    if len(locs) != len(canon_locals):
+        raise Untranslatable(f"{fn.name}: {len(locs)} local variables {locs}, the modelled function has {len(canon_locals)}")
+    rename = dict(zip(locs, canon_locals))
+    fn = py2v._Normaliser(rename).visit(fn)
+    ast.fix_missing_locations(fn)
+    return fn
+
+
 def activate_facts(tree, src):
-    f = top_func(tree, "activate")
-    if params(f) != ["engine", "conn", "config"]:
+    f0 = top_func(tree, "activate")
+    if params(f0) != ["engine", "conn", "config"]:
         raise Untranslatable("activate: parameters changed")
+    f = canonical_function(tree, f0, ACT_LOCALS, skip_local=lambda st: _forced_import(st) is not None)
+    f.lineno = f0.lineno
     body = strip_doc(f.body)
     i = 0
     out = {"forced": [], "reset": False}
@@ -225,12 +356,12 @@ def activate_facts(tree, src):
         if sub is not None and "import_pkg" in names_done and "copy_dict" not in names_done:
             out["forced"].append(sub)
             continue
-        raise Untranslatable(f"activate: statement at line {st.lineno} matches no known shape "
-                             f"(expected `{key}`): {ast.get_source_segment(src, st)[:80]!r}")
+        raise Untranslatable(f"activate: a statement matches no known shape (expected `{key}`): "
+                             f"{ast.unparse(st)[:80]!r}")
     if i != len(ACT_MANDATORY):
         raise Untranslatable(f"activate: statement `{ACT_MANDATORY[i][0]}` is missing")
-    out["hash"] = py2v.src_hash(f, src)
-    out["line"] = f.lineno
+    out["hash"] = py2v.norm_hash(f0)
+    out["line"] = f0.lineno
     return out
 
 
@@ -238,9 +369,11 @@ def activate_facts(tree, src):
 # deactivate()
 
 def deactivate_facts(tree, src):
-    f = top_func(tree, "deactivate")
-    if params(f):
+    f0 = top_func(tree, "deactivate")
+    if params(f0):
         raise Untranslatable("deactivate: parameters changed")
+    f = canonical_function(tree, f0, DEACT_LOCALS)
+    f.lineno = f0.lineno
     body = strip_doc(f.body)
     clear_first = clear_last = in_finally = False
     if body and same(body[0], "ACTIVATE_CONFIG.clear()"):
@@ -278,7 +411,7 @@ def deactivate_facts(tree, src):
         catch = "CatchAll"
     else:
         raise Untranslatable(f"deactivate: handler type {hn!r} not understood")
-    return {"catch": catch, "protected": clear_first or in_finally, "hash": py2v.src_hash(f, src), "line": f.lineno}
+    return {"catch": catch, "protected": clear_first or in_finally, "hash": py2v.norm_hash(f0), "line": f0.lineno}
 
 
 # ---------------------------------------------------------------------------------------------------
@@ -290,7 +423,7 @@ def context_facts(tree, src):
         raise Untranslatable("activate_context: parameters changed")
     if [dotted(d) for d in f.decorator_list] != ["contextmanager"]:
         raise Untranslatable("activate_context: decorators changed")
-    body = strip_doc(f.body)
+    body = strip_doc(py2v.norm_body(f, rename_locals=False))
     act, yld, deact = "activate(engine, conn, config)", "yield", "deactivate()"
 
     def is_try_finally(t, inner):
